@@ -403,7 +403,9 @@ def corr_registry(cs, tag, m):
         n_at = len(m)
     except Exception:
         return
-    if n_at > 70 or not (reg and any(a.stereo is not None for _, a in m.atoms()) or cs.rng.random() < 0.12):
+    full = ck.tier == 'thorough'
+    labelled = bool(reg) and any(a.stereo is not None for _, a in m.atoms())
+    if n_at > (70 if full else 40) or cs.rng.random() >= ((0.9 if full else 0.45) if labelled else 0.06):
         return
     cs.add_big(f'reg_ok {coqmol.mol_term(m)} {lst(list(reg.items()), lambda kv: tup(zraw(kv[0]), lst(kv[1], zraw)))}', (tag, 'stereogenic_tetrahedrons', len(reg)))
     ck.count('registry:' + ('empty' if not reg else 'entries'))
@@ -826,6 +828,30 @@ def ch_malformed(rng):
     return out
 
 
+SMALL_SPACE = ['F[C@](Cl)(Br)I', 'F[C@@](Cl)(Br)I', 'F[C@H](Cl)Br', 'F[C@@H](Cl)Br', '[H][C@](F)(Cl)Br', '[H][C@@](F)(Cl)Br',
+               'F/C(Cl)=C(/Br)I', 'F/C(Cl)=C(\\Br)I', 'F/C=C/Cl', 'F/C=C\\Cl', 'F/C([H])=C([H])/Cl', 'F/C([H])=C([H])\\Cl', 'F/C(Cl)=C/Br', 'F/C(Cl)=C\\Br']
+
+
+def small_space(ck, salt):
+    """every atom numbering of a few one-centre / one-double-bond molecules, produced by RDKit itself (Chem.RenumberAtoms keeps the
+    configuration and changes indices, neighbour order and bond order): all n! numberings under --thorough, a sample in quick.
+    Yields (smiles, permutation, renumbered RDKit molecule)."""
+    from rdkit import Chem
+    rng = random.Random(f'{ck.seed}:c20:small:{salt}')
+    for smi in SMALL_SPACE:
+        p = Chem.SmilesParserParams()
+        p.removeHs = False
+        rd = Chem.MolFromSmiles(smi, p)
+        n = rd.GetNumAtoms()
+        perms = list(itertools.permutations(range(n)))
+        if ck.tier != 'thorough':
+            perms = rng.sample(perms, 5)
+        elif len(perms) > 240:
+            perms = rng.sample(perms, 240)      # six-atom molecules: 240 of the 720 numberings
+        for perm in perms:
+            yield smi, perm, Chem.RenumberAtoms(rd, list(perm))
+
+
 def correspondence(ck, n_corpus):
     from rdkit import RDLogger
     RDLogger.DisableLog('rdApp.*')
@@ -885,6 +911,13 @@ def correspondence(ck, n_corpus):
             if m2 is not None and rng.random() < (0.3 if full else 0.15):
                 corr_to(cs, tag + '|back', m2)
                 smiles_of[tag + '|back'] = smi
+    for smi, perm, rd in small_space(ck, 'corr'):
+        ck.count('corr-input:small space (every numbering)')
+        tag = f'{smi}|numbering {"".join(map(str, perm))}'
+        smiles_of[tag] = smi
+        m2, _ = corr_from(cs, tag, rd)
+        if m2 is not None:
+            corr_to(cs, tag + '|back', m2, keep=True)
     for tag, rd in rd_malformed():
         if rd is None:
             ck.count('corr-input:malformed rdkit (RDKit cannot hold it)')
@@ -1728,6 +1761,29 @@ def search(ck, n_corpus, extra=()):
             ck.unchecked(f'search oracle crashed on {smi}', traceback.format_exc()[-1500:], [smi])
             ck.oblige('search oracles ran on every input', False, 'machinery', f'{smi}: {type(e).__name__}: {e}')
             break
+    # every numbering of the small molecules: RDKit -> chython -> RDKit must give RDKit's canonical SMILES of the original, and the
+    # chython molecules of one input must all be equal
+    from chython.utils.rdkit import from_rdkit_molecule, to_rdkit_molecule
+    canon, chy = {}, {}
+    for smi, perm, rd in small_space(ck, 'search'):
+        ck.case(('small-space', smi, perm))
+        ck.count('search-input:small space (every numbering)')
+        want = canon.setdefault(smi, can_smiles(rd))
+        try:
+            m2 = from_rdkit_molecule(rd)
+            got = can_smiles(to_rdkit_molecule(m2))
+            cs_ = str(normalised(m2) or m2)
+        except Exception as e:
+            got, cs_ = 'raises ' + type(e).__name__, None
+        rp = (f"from rdkit import Chem; from chython.utils.rdkit import from_rdkit_molecule, to_rdkit_molecule\np = Chem.SmilesParserParams(); p.removeHs = False\n"
+              f"rd = Chem.RenumberAtoms(Chem.MolFromSmiles({smi!r}, p), {list(perm)!r}); m = from_rdkit_molecule(rd)\n"
+              f"print(str(m), Chem.MolToSmiles(to_rdkit_molecule(m, keep_mapping=False)))")
+        if got != want:
+            rep.counterexample(f'small-space-roundtrip:{smi}:{"".join(map(str, perm))}', 'RDKit -> chython -> RDKit changes the molecule for one numbering of a one-centre / one-double-bond molecule',
+                               {'smiles': smi, 'numbering': list(perm)}, got, want, 'RDKit canonical isomeric SMILES (RenumberAtoms keeps the configuration)', replay_py=rp)
+        elif cs_ is not None and chy.setdefault(smi, cs_) != cs_:
+            rep.counterexample(f'small-space-chython:{smi}:{"".join(map(str, perm))}', 'two numberings of one RDKit molecule give different chython molecules (canonical string)',
+                               {'smiles': smi, 'numbering': list(perm)}, cs_, chy[smi], 'chython canonical string', replay_py=rp)
     # hand-edited RDKit molecules (tags and labels where RDKit itself would not put them, unusual bond types): the result must
     # still be a consistent chython molecule
     for tag, rdm in rd_malformed():
@@ -1766,6 +1822,7 @@ def search(ck, n_corpus, extra=()):
 
 def run(ck):
     ck.trusted += ['translators tools/gen_rdkit_tables.py (Python ast: two dict displays, one set display, four enum constants of utils/rdkit.py), '
+                   'tools/gen_rdkit_consts.py (Python ast: constants and test shapes of stereo.py and the charge setter of element.py), '
                    'tools/gen_stereo.py, tools/gen_elements.py',
                    'correspondence runner harness/checks/C20.py (taps on SanitizeMol / fix_structure, printers) + harness/coqcases.py',
                    'CachedMethods shim harness/boot.py', 'CPython 3.12.1',
@@ -1781,7 +1838,7 @@ def run(ck):
                         'the bridge\'s own outputs fed back, ~190 malformed RDKit and chython molecules; non-trivial = the transfer succeeded / the centre carries a label. '
                         'search: the same pools plus larger corpus samples through both directions and both round trips; non-trivial = accepted by both toolkits')
     quick = ck.tier == 'quick'
-    proved = common.standard_proof_steps(ck, translators=['rdkit_tables', 'stereo', 'elements'])
+    proved = common.standard_proof_steps(ck, translators=['rdkit_tables', 'rdkit_consts', 'stereo', 'elements'])
     good, bad, log, suspects = correspondence(ck, 12 if quick else 150)
     if not good:
         # directed search: the property-level oracles on (and around: all forms, renumberings, RDKit variants of) the disagreeing inputs first
